@@ -328,13 +328,93 @@ func e3() {
 	res.Sample(map[string]any{"part": "E3", "paths": paths, "bases": bases})
 }
 
+// effAuthority: scheme, lower-cased host and effective port (an absent port is the scheme's default)
+func effAuthority(u *url.URL) string {
+	port := u.Port()
+	if port == "" {
+		switch strings.ToLower(u.Scheme) {
+		case "http":
+			port = "80"
+		case "https":
+			port = "443"
+		}
+	}
+	return strings.ToLower(u.Scheme) + "://" + strings.ToLower(u.Hostname()) + ":" + port
+}
+
+// E4: every spelling of the configured authority - scheme x host form x port (absent, the scheme's default, the other
+// scheme's default, ordinary ports) x base path - through LoadFromConfig and then the target builder, the health-check
+// URL and the model-listing URL: all three must stay on the configured scheme, host and effective port.
+func e4() {
+	if report.Shard != 1%report.NShards {
+		return
+	}
+	schemes := []string{"http", "https", "HTTP", "Https"}
+	hosts := []string{"backend.internal", "Backend.Internal", "GPU-BOX", "127.0.0.1", "[::1]", "localhost", "xn--bcher-kva.example", "a.b.c.d.e.example."}
+	ports := []string{"", ":80", ":443", ":8080", ":8443", ":11434", ":1", ":65535", ":080"}
+	bases := []string{"", "/", "/base", "/base/v1/"}
+	p := 100
+	for _, sc := range schemes {
+		for _, h := range hosts {
+			for _, po := range ports {
+				for _, base := range bases {
+					for _, preserve := range []bool{false, true} {
+						raw := sc + "://" + h + po + base
+						want, err := url.Parse(raw)
+						if err != nil {
+							continue
+						}
+						repo := discovery.NewStaticEndpointRepository()
+						cfg := config.EndpointConfig{URL: raw, Name: "e", Type: "openai-compatible", Priority: &p, PreservePath: preserve,
+							HealthCheckURL: "/health", ModelURL: "/v1/models", CheckInterval: 5 * time.Second, CheckTimeout: 2 * time.Second}
+						err = repo.LoadFromConfig(context.Background(), []config.EndpointConfig{cfg})
+						res.Add("evaluations", 1)
+						if err != nil {
+							res.SetAdd("E4_rejected_by_config", sc+"|"+po)
+							continue
+						}
+						eps, _ := repo.GetAll(context.Background())
+						if len(eps) != 1 {
+							res.Violate("config-endpoint-count", map[string]any{"part": "E4"}, fmt.Sprintf("endpoint url %q loads as %d endpoints", raw, len(eps)), nil)
+							continue
+						}
+						e := eps[0]
+						res.SetAdd("distinct_nontrivial", "E4|"+sc+"|"+h+"|"+po+"|"+base)
+						r, _ := http.NewRequest("POST", "http://front.example/olla/proxy/v1/chat/completions?x=1", nil)
+						t := common.BuildTargetURL(r, e, "/olla/proxy")
+						hu, herr := url.Parse(e.HealthCheckURLString)
+						mu, merr := url.Parse(e.ModelURLString)
+						for _, x := range []struct {
+							what string
+							u    *url.URL
+							err  error
+						}{{"proxied request", t, nil}, {"health check", hu, herr}, {"model listing", mu, merr}, {"endpoint URL", e.URL, nil}, {"endpoint health URL", e.HealthCheckURL, nil}, {"endpoint model URL", e.ModelUrl, nil}} {
+							if x.err != nil || x.u == nil {
+								res.Violate("config-url-unparsable", map[string]any{"part": "E4", "what": x.what}, fmt.Sprintf("endpoint url %q: %s url unusable (%v)", raw, x.what, x.err), nil)
+								continue
+							}
+							if got := effAuthority(x.u); got != effAuthority(want) {
+								res.Violate("upstream-authority-differs-from-configured", map[string]any{"part": "E4", "what": x.what, "port": po},
+									fmt.Sprintf("endpoint configured as %q (%s): the %s goes to %q (%s)", raw, effAuthority(want), x.what, x.u.String(), got),
+									map[string]any{"engine": "enum", "part": "E4", "endpoint_url": raw, "preserve_path": preserve})
+							}
+						}
+					}
+				}
+			}
+		}
+	}
+	res.Sample(map[string]any{"part": "E4", "schemes": schemes, "hosts": hosts, "ports": ports, "bases": bases})
+}
+
 func main() {
 	res = report.Init("C16", "exploration")
 	e1()
 	e3()
+	e4()
 	e2()
 	res.Info["grid"] = map[string]any{"segment_alphabet": alphabet, "E1_max_segments": 4, "E2_max_segments": map[string]int{"quick": 3, "thorough": 4}[report.Tier], "bases": []string{"", "/", "/base", "/base/v1/"},
-		"queries": []string{"", "q=../..", "a=%2e%2e"}, "E2": "raw request-target bytes behind /olla/proxy and /olla/openai, origin-form and absolute-form naming a decoy listener, both engines"}
+		"queries": []string{"", "q=../..", "a=%2e%2e"}, "E4": "4 scheme spellings x 8 host forms x 9 port spellings (absent, :80, :443, ordinary, leading zero) x 4 base paths x preserve_path, through LoadFromConfig to the proxied target, the health-check URL and the model-listing URL", "E2": "raw request-target bytes behind /olla/proxy and /olla/openai, origin-form and absolute-form naming a decoy listener, both engines"}
 	res.Info["rule"] = "one evaluation = one BuildTargetURL call / one raw request / one LoadFromConfig; non-trivial/distinct = distinct normalised upstream paths per (base, preserve_path)"
 	res.Assume("containment is judged after one level of percent-decoding and RFC 3986 dot-segment removal", "the Host header forwarded to the backend is the client's by design and is not judged")
 	res.Finish()
